@@ -5,7 +5,7 @@
    loan/send/send_copy, receive, drops of every object in any order, set_disconnect_hint,
    has_requests) with ANY polling order, for the configuration g (all limits, overflow and
    fire-and-forget flags, numbers of client / server slots are universally quantified). *)
-From V Require Import model.Base model.ReqRes proofs.ReqResProofs proofs.ReqResInv.
+From V Require Import model.Base model.ReqRes proofs.ReqResProofs proofs.ReqResInv proofs.ReqResRoute.
 Open Scope N_scope.
 
 (* ---- the channel-state word ------------------------------------------------------------- *)
@@ -80,12 +80,32 @@ Proof.
   destruct (H1 p m Hin) as [_ E]. cbn [fst snd] in Hne. rewrite E, N.eqb_refl in Hne. discriminate.
 Qed.
 Print Assumptions c11_routing_refuted.
-(* proved part: the request-id half, unconditionally (the client half is tied only by the
-   correspondence runs: outside the known class no history showed a foreign response) *)
+(* proved part 1: the request-id half, unconditionally *)
 Theorem c11_routing_partial : forall g s, reach g s ->
   forall p m, In (p, m) (s_rlog s) -> p_rid m = q_rid (pn_msg p).
 Proof. exact rlog_ok_reach. Qed.
 Print Assumptions c11_routing_partial.
+(* proved part 2: the full clause for every history in which no response is SENT into a
+   connection of another client (reach_ok: at every As / Aw step the connection that
+   response_sender.connections[connection_id] resolves to after update_connections belongs to
+   the client whose request the ActiveRequest holds).  Channel recycling, stale queued
+   responses, overflow, several servers, to-be-removed connections, any drop order: none of
+   them can mis-route; the slot-index aliasing of the known finding is the only way.  The link
+   "no client takes over the slot of a client whose requests a server still holds => reach_ok"
+   is NOT proved (the correspondence runs never saw a violation outside that class). *)
+Theorem c11_routing_under_send_ok : forall g s, reach_ok g s ->
+  forall p m, In (p, m) (s_rlog s) -> p_rid m = q_rid (pn_msg p) /\ p_ocl m = pn_cl p.
+Proof. exact routing_reach_ok. Qed.
+Check c11_routing_under_send_ok : forall g s, reach_ok g s ->
+  forall p m, In (p, m) (s_rlog s) -> p_rid m = q_rid (pn_msg p) /\ p_ocl m = pn_cl p.
+Print Assumptions c11_routing_under_send_ok.
+(* non-vacuity: the channel-reuse history (stale response discarded, genuine one delivered)
+   satisfies the hypothesis and hands out a response; the known-defect history violates it *)
+Example c11_routing_under_send_ok_nonvacuous :
+  reach_ok cfg3 (run cfg3 (w_reuse ++ [Pr 0])) /\ length (s_rlog (run cfg3 (w_reuse ++ [Pr 0]))) = 1%nat /\
+  all_send_okb cfg1 (init cfg1) w_routing = false.
+Proof. split; [exact (proj1 w_reuse_ok)|]. split; [exact (proj2 w_reuse_ok)|exact w_routing_not_ok]. Qed.
+Print Assumptions c11_routing_under_send_ok_nonvacuous.
 
 (* ---- limits ------------------------------------------------------------------------------- *)
 (* In every reachable state, for every connection: at most max_response_buffer_size responses
